@@ -1,12 +1,14 @@
 ---------------------------- MODULE OffsetsTrace ----------------------------
-(* Trace validation for C08 (and the end-to-end side of C04): one complete Sync() run per trace.
+(* (All offsets in the trace are relative to the announced start offset: TLC integers are 32 bit, the
+   recorder subtracts in int64 and maps anything absurd to the sentinel -999999.)
+   Trace validation for C08 (and the end-to-end side of C04): one complete Sync() run per trace.
    Source-side events (src-*: what the scripted master sent / received), the tool's linearisation
    events (tool-recv n: n more stream bytes handed to the parser; tool-ack x: offset x acknowledged)
    and the target's checkpoints share one sequence.  "src-sending n" is logged BEFORE the write that
    makes the source's cumulative stream count n, "src-sent n" after it. *)
 EXTENDS Integers, Sequences, FiniteSets, TLC, Json
-VARIABLES l, bad, start, ends, slen, sending, recv, lastAck, lastSrcAck, conns
-vars == <<l, bad, start, ends, slen, sending, recv, lastAck, lastSrcAck, conns>>
+VARIABLES l, bad, start, ends, slen, sending, recv, lastAck, lastSrcAck, conns, resumed
+vars == <<l, bad, start, ends, slen, sending, recv, lastAck, lastSrcAck, conns, resumed>>
 Trace == ndJsonDeserialize("trace.ndjson")
 SetOf(seq) == {seq[i] : i \in 1..Len(seq)}
 Increasing(seq) == \A i \in 1..(Len(seq) - 1) : seq[i] < seq[i + 1]
@@ -14,25 +16,28 @@ EventOK(ev) ==
   CASE ev.e = "tool-ack" ->        \* start + bytes received so far <= x <= start + bytes the source has (begun to) send; monotone
          /\ ev.n >= lastAck /\ ev.n >= start + recv /\ ev.n <= start + sending
     [] ev.e = "src-ack" ->         \* what the master sees: 0 while the RDB is transferred, then the same law
-         ev.off = 0 \/ (ev.off >= lastSrcAck /\ ev.off >= start /\ ev.off <= start + sending)
+         ev.zero \/ (ev.off >= lastSrcAck /\ ev.off >= start /\ ev.off <= start + sending)
     [] ev.e = "src-psync" ->       \* the first PSYNC asks for a full sync; every later one for exactly the next byte
-         IF conns = 0 THEN ev.off = -1 ELSE ev.runid_ok /\ ev.off = start + recv + 1
+         IF conns = 0 THEN (IF resumed THEN ev.runid_ok /\ ev.off = start + recv + 1 ELSE ev.off = -1000000)
+         ELSE ev.runid_ok /\ ev.off = start + recv + 1
     [] ev.e = "quiet" ->           \* idle for more than two ACK periods: everything received exactly once and acknowledged
          ev.complete /\ recv = slen /\ lastAck = start + slen
     [] ev.e = "target" ->          \* checkpoints are exact stream positions, strictly increasing; nothing lost or applied twice
          /\ ~ev.abort /\ ev.missing = 0 /\ ev.dup = 0
          /\ SetOf(ev.ckpts) \subseteq ends /\ Increasing(ev.ckpts)
     [] OTHER -> TRUE
-TInit == l = 1 /\ bad = 0 /\ start = 0 /\ ends = {} /\ slen = 0 /\ sending = 0 /\ recv = 0 /\ lastAck = 0 /\ lastSrcAck = 0 /\ conns = 0
+TInit == l = 1 /\ bad = 0 /\ start = 0 /\ ends = {} /\ slen = 0 /\ sending = 0 /\ recv = 0 /\ lastAck = 0 /\ lastSrcAck = 0 /\ conns = 0 /\ resumed = FALSE
 TNext == /\ l <= Len(Trace) /\ l' = l + 1
          /\ LET ev == Trace[l] IN
             /\ start' = IF ev.e = "cfg" THEN ev.start ELSE start
             /\ ends' = IF ev.e = "cfg" THEN SetOf(ev.ends) ELSE ends
             /\ slen' = IF ev.e = "cfg" THEN ev.stream_len ELSE slen
             /\ sending' = IF ev.e = "src-sending" /\ ev.n > sending THEN ev.n ELSE sending
-            /\ recv' = IF ev.e = "tool-recv" THEN recv + ev.n ELSE recv
+            \* a run that starts from a stored checkpoint has, in effect, already received the stream up to it
+            /\ recv' = IF ev.e = "tool-recv" THEN recv + ev.n ELSE IF ev.e = "resume-from" THEN ev.n ELSE recv
+            /\ resumed' = (resumed \/ ev.e = "resume-from")
             /\ lastAck' = IF ev.e = "tool-ack" THEN ev.n ELSE lastAck
-            /\ lastSrcAck' = IF ev.e = "src-ack" /\ ev.off > 0 THEN ev.off ELSE lastSrcAck
+            /\ lastSrcAck' = IF ev.e = "src-ack" /\ ~ev.zero THEN ev.off ELSE lastSrcAck
             /\ conns' = IF ev.e = "src-psync" THEN conns + 1 ELSE conns
             /\ IF EventOK(ev) THEN bad' = bad ELSE PrintT(<<"REJECT", l>>) /\ bad' = bad + 1
 TSpec == TInit /\ [][TNext]_vars
